@@ -113,6 +113,14 @@ def _partition(col, R, fi, reg, repo=None):
     sts = [s_ for s_ in ex.stores if s_.kind == "sub" and s_.base.op == "attr" and s_.base.name == reg and
            s_.base.args[0].op == "attr" and s_.base.args[0].name == "base"]
     if not sts:
+        # the new entries may be collected in a local dictionary that is merged into the registry afterwards:
+        #   updated[name] = ...  (in the loop)   ...   self.base.<reg>.update(updated)
+        ups = [s_ for s_ in ex.stores if s_.kind == "mcall" and s_.key.name == "update" and s_.base.op == "attr" and s_.base.name == reg and
+               s_.base.args[0].op == "attr" and s_.base.args[0].name == "base" and s_.value is not None and len(s_.value.args) == 2]
+        for u in ups:
+            d = u.value.args[1]
+            sts += [s_ for s_ in ex.stores if s_.kind == "sub" and s_.base.key() == d.key() and s_.value is not None]
+    if not sts:
         col.unk(R, fi, f"set_ncomp: rewrite of `{reg}`", "store into the registry not found", node=fi.node)
         return
     st = sts[-1]
@@ -333,8 +341,10 @@ def _rows(repo, col, fi, ex):
     if dr is not None:
         col.check(ok, R, fi, "exactly the old rows of the branch are dropped", "range(start, start + number of old compartments)",
                   f"dropped rows: {dr.short(100) if dr else None}", node=st.node)
-    ok = T.find(v, lambda x: x.op == "mcall" and x.name == "reset_index") is not None
-    col.check(ok, R, fi, "row labels are renumbered densely", "reset_index(drop=True)", "row labels are not reset", node=st.node)
+    ok = T.find(v, lambda x: x.op == "mcall" and x.name == "reset_index") is not None or \
+        T.find(v, lambda x: x.op == "mcall" and x.name == "concat" and x.kw.get("ignore_index") is not None and
+               x.kw["ignore_index"].op == "const" and x.kw["ignore_index"].name is True) is not None
+    col.check(ok, R, fi, "row labels are renumbered densely", "reset_index(drop=True) / concat(ignore_index=True)", "row labels are not reset", node=st.node)
     # dense renumbering of the global compartment index of the rebuilt table
     ren = [s_ for s_ in ex.stores if s_.kind == "sub" and s_.key.op == "const" and s_.key.name == "global_comp_index" and
            T.find(s_.base, lambda x: x.op == "mcall" and x.name == "concat") is not None]
